@@ -133,6 +133,11 @@ def decide(prop, node, sh, context, res, exc):
     missing = [x for x in names if not isinstance(ctx, dict) or ctx.get(x, None) is None]
     if missing:
         rec.arm("eval:missing-variable")
+        if isinstance(exc, OverflowError):
+            # evaluation is eager: a float overflow elsewhere in the tree was hit before the unbound
+            # variable; nothing was defaulted, and IEEE overflow is outside the workload
+            rec.skip("eval: overflow before the unbound variable was reached")
+            return
         if not isinstance(exc, ValueError):
             bad("eval/missing-variable", "a variable without a value is not reported as ValueError",
                 f"{'returned ' + repr(res) if exc is None else 'raised ' + type(exc).__name__} with {missing} unbound")
